@@ -52,6 +52,40 @@ def run(ctx):
         for j, ev in enumerate(evs):
             traces.append({"id": "mm%d.%d" % (i, j), "events": [ev]})
             ctx.count_case((i, j, json.dumps(ev.get("orig", ev.get("obj")), sort_keys=True)), nontrivial=nontriv)
+    # TWO MetaModules with byte-identical embedded projects in one project (two copies of a voice), also nested: after a
+    # load each has its own embedded project - an edit inside one shows in that one only (judged like a C06 edit)
+    from .c06 import catalogue
+    for i in range(3 if q else 30):
+        voice = gen.rand_module(rnd, cl["MetaModule"], spec, depth=1, in_project=False)
+        p2 = api.Project()
+        p2.attach_module(voice)
+        p2.attach_module(voice.clone())
+        if i % 2:
+            holder = api.m.MetaModule()
+            holder.project = p2
+            p2.metamodule = holder
+            top = api.Project()
+            top.attach_module(holder)
+            p2 = top
+        data = p2.read()
+        out, lq = fmt.load(data)
+        if lq is None:
+            continue
+        base, leaves = catalogue(lq, spec, rnd)
+        inner = [lf for lf in leaves if lf[1][:2] == (["modules", 2] if not i % 2 else ["modules", 2]) and "project" in lf[1]]
+        rnd.shuffle(inner)
+        events = [{"op": "base", "obj": base}]
+        for kind, pth, fn, newv in inner[:6]:
+            out, o2 = fmt.load(data)
+            try:
+                fn(o2)
+                out, o3 = fmt.load(o2.read())
+            except Exception as e:
+                out, o3 = "edit-raised:" + type(e).__name__, None
+            events.append({"op": "edit", "kind": kind, "path": pth, "value": newv, "outcome": out, "w": False, "edited": {"kind": "none"}, "chunks": [],
+                           "after": fmt.projection.project_any(o3, spec, True) if o3 is not None else {"kind": "none"}})
+            ctx.count_case(("twins", i, json.dumps(pth)), nontrivial=True)
+        traces.append({"id": "twins%d" % i, "events": events})
     cans = []
     def canary(name, pred, mut):
         src = next((t for t in traces if pred(t["events"][0])), None)
